@@ -464,6 +464,93 @@ def C02_contains(t, sub):
     return False
 
 
+# characters every string of C02's quantifier may contain (`all strings made of characters legal in XML 1.0`): the
+# whitespace and markup characters, the two legal C0/C1 neighbours of the forbidden ranges, and some ordinary text
+LEGAL_XML_CHARS = [" ", "\t", "\n", "\r", "a", "Z", "0", "<", ">", "&", "]", "[", "!", '"', "'", "\x7f", "\x85", "\xa0", "\xe9", "\u2028", "\u4e2d", "\ud7ff", "\ue000", "\ufffd", "\U00010000", "\U0001f600", "\U0010ffff"]
+
+
+class _NotConcrete(Exception):
+    pass
+
+
+def char_pred(t, elem, ch):
+    """truth of a closure's result term `t` when its argument `elem` is the concrete character `ch` — for predicates
+    made of comparisons with literals, ranges, char class methods and boolean structure; anything else: _NotConcrete"""
+    import ast
+    import unicodedata
+
+    def val(x):
+        if x == elem:
+            return ch
+        if isinstance(x, tuple) and x and x[0] == "c":
+            return x[1]
+        if isinstance(x, tuple) and x and x[0] in ("deref", "ref", "copy") and len(x) == 2:
+            return val(x[1])
+        if isinstance(x, tuple) and x and x[0] == "cast" and val(x[1]) is not None:
+            v = val(x[1])
+            return ord(v) if isinstance(v, str) and len(v) == 1 else v
+        raise _NotConcrete(repr(x)[:80])
+
+    def lit(sx):
+        try:
+            d = ast.literal_eval(sx)
+            return d["lit"]["v"] if isinstance(d, dict) and "lit" in d else (d.get("e", {}).get("lit", {}).get("v") if isinstance(d, dict) else None)
+        except (ValueError, SyntaxError):
+            return None
+
+    def go(x):
+        if x is True or x is False:
+            return x
+        if not isinstance(x, tuple) or not x:
+            raise _NotConcrete(repr(x)[:80])
+        k = x[0]
+        if k == "c" and isinstance(x[1], bool):
+            return x[1]
+        if k == "not":
+            return not go(x[1])
+        if k == "un" and x[1] == "!":
+            return not go(x[2])
+        if k == "and":
+            return all(go(y) for y in x[1])
+        if k == "or":
+            return any(go(y) for y in x[1])
+        if k == "else":
+            return not any(go(y) for y in x[1])
+        if k == "phi":
+            for cnd, y in x[1]:
+                if go(cnd):
+                    return go(y)
+            raise _NotConcrete("phi without a true alternative")
+        if k == "op" and x[1] in ("||", "&&"):
+            return (go(x[2]) or go(x[3])) if x[1] == "||" else (go(x[2]) and go(x[3]))
+        if k == "op" and x[1] in ("==", "!=", "<", "<=", ">", ">="):
+            a, b = val(x[2]), val(x[3])
+            if type(a) is not type(b):
+                raise _NotConcrete("mixed comparison")
+            return {"==": a == b, "!=": a != b, "<": a < b, "<=": a <= b, ">": a > b, ">=": a >= b}[x[1]]
+        if k == "inrange":
+            lo, hi = lit(x[2]), lit(x[3])
+            v = val(x[1])
+            if lo is None or hi is None or type(lo) is not type(v):
+                raise _NotConcrete("range bounds")
+            return lo <= v <= hi
+        if k == "app" and isinstance(x[1], str) and len(x[2]) == 1 and isinstance(val(x[2][0]), str):
+            m = x[1].rsplit("::", 1)[-1]
+            v = val(x[2][0])
+            if m == "is_control":
+                return unicodedata.category(v) == "Cc"
+            if m == "is_ascii_control":
+                return ord(v) < 0x20 or ord(v) == 0x7f
+            if m == "is_whitespace":
+                return v.isspace() or v in "\x85\u2028"
+            if m == "is_ascii_whitespace":
+                return v in " \t\n\r\x0c"
+            if m == "is_ascii":
+                return ord(v) < 0x80
+        raise _NotConcrete(repr(x)[:80])
+    return go(t)
+
+
 def rule_name(c, prog):
     R = "C02.name"
     c.rule(R, "Name is written from instance.name through the String type and read back into the instance name; character data is written as CDATA exactly when it has leading or trailing whitespace (the case the whitespace-dropping reader would lose); read_characters joins every adjacent Characters/CData event")
@@ -526,6 +613,16 @@ def rule_name(c, prog):
                 continue      # a string has a first character iff it has a last one
 
             def oracle(t, F=F, WF=WF, L=L, WL=WL):
+                if t[0] == "app" and t[1] == "search:any" and t[2][0] == ("chars", vt):
+                    # a scan of the whole text (`value.chars().any(pred)`): false for every string of the quantifier
+                    # when pred is false on every character such a string can contain; otherwise not decided here
+                    try:
+                        hit = [ch for ch in LEGAL_XML_CHARS if char_pred(t[2][1], t[2][2], ch)]
+                    except _NotConcrete:
+                        return None
+                    if not hit:
+                        return False
+                    raise sym.Unsupported(f"the function scans the whole text and takes a different path when it contains {hit[0]!r} (U+{ord(hit[0]):04X}), a character legal in XML 1.0")
                 if t[0] == "app" and t in sw:
                     return (F and WF) if t[1].endswith("starts_with") else (L and WL)
                 if t[0] == "is" and t[2] == sym.SOME and t[1] in (FIRST, LAST) and t[1] is not None:
